@@ -661,3 +661,47 @@ package larking
 //@ func (*Mux).encError serves C05 C09 partial panic ghost
 //@   requires m != nil && w != nil && r != nil
 //@   witness verifWitnessEncError
+
+// ---------------------------------------------------------------------------
+// negotiate.go: Accept parsing (safety, termination) and negotiation results
+// (the chosen type is one of the offers or the default). Floats are reals.
+//@ func skipSpace serves C04 C09
+//@   ensures [suffix] len(rest) <= len(s)
+//@   loop 1 invariant 0 <= i && i <= len(s)
+//@   loop 1 decreases len(s) - i
+
+//@ func expectTokenSlash serves C04 C09
+//@   ensures [split] len(token) + len(rest) == len(s)
+//@   loop 1 invariant 0 <= i && i <= len(s)
+//@   loop 1 decreases len(s) - i
+
+//@ func expectQuality serves C04 C09
+//@   ensures [suffix] len(rest) <= len(s)
+//@   loop 1 invariant 0 <= i && i <= len(s)
+//@   loop 1 decreases len(s) - i
+
+//@ func parseAccept serves C04 C09
+//@   modifies E$acceptSpec
+//@   loop 1 invariant -1 <= rangeindex && rangeindex < len(values)
+//@   loop 1 decreases len(values) - rangeindex
+//@   loop 2 decreases len(s)
+
+//@ spec OneOf(x, offers, upto) = exists k :: 0 <= k && k <= upto && k < len(offers) && same(x, offers[k])
+
+//@ func negotiateContentType serves C04 C05 C09
+//@   modifies E$acceptSpec
+//@   ensures [one-of-the-offers C04] same(result, defaultOffer) || OneOf(result, offers, len(offers))
+//@   loop 1 invariant -1 <= rangeindex && rangeindex < len(offers) && (same(bestOffer, defaultOffer) || OneOf(bestOffer, offers, rangeindex))
+//@   loop 1 decreases len(offers) - rangeindex
+//@   loop 2 invariant -1 <= rangeindex#2 && rangeindex#2 < len(specs) && 0 <= rangeindex && rangeindex < len(offers)
+//@   loop 2 invariant same(offer, offers[rangeindex]) && (same(bestOffer, defaultOffer) || OneOf(bestOffer, offers, rangeindex))
+//@   loop 2 decreases len(specs) - rangeindex#2
+
+//@ func negotiateContentEncoding serves C04 C09
+//@   modifies E$acceptSpec
+//@   ensures [one-of-the-offers C04] len(result) == 0 || result == "identity" || OneOf(result, offers, len(offers))
+//@   loop 1 invariant -1 <= rangeindex && rangeindex < len(offers) && (bestOffer == "identity" || OneOf(bestOffer, offers, rangeindex))
+//@   loop 1 decreases len(offers) - rangeindex
+//@   loop 2 invariant -1 <= rangeindex#2 && rangeindex#2 < len(specs) && 0 <= rangeindex && rangeindex < len(offers)
+//@   loop 2 invariant same(offer, offers[rangeindex]) && (bestOffer == "identity" || OneOf(bestOffer, offers, rangeindex))
+//@   loop 2 decreases len(specs) - rangeindex#2
